@@ -1772,3 +1772,328 @@ Section CtlStep.
     - apply wp_ret. kdone S3.
   Qed.
 End CtlStep.
+
+(* ---------- single statements ---------- *)
+Section StmtStep.
+  Context (f : nat) (IH : all_sound f).
+  Let IHe : expr_sound f := proj1 IH.
+  Let IHc : call_sound f := proj1 (proj2 (proj2 IH)).
+  Let IHblock : block_sound f := proj1 (proj2 (proj2 (proj2 (proj2 (proj2 IH))))).
+  Let IHcond : cond_sound f := proj1 (proj2 (proj2 (proj2 (proj2 (proj2 (proj2 IH)))))).
+  Let IHwhile : while_sound f := proj1 (proj2 (proj2 (proj2 (proj2 (proj2 (proj2 (proj2 IH))))))).
+  Let IHfor : for_sound f := proj2 (proj2 (proj2 (proj2 (proj2 (proj2 (proj2 (proj2 IH))))))).
+
+  Lemma if_go_wp P rt il els G :
+    match els with
+    | Some body => is_some (wt_stmts (p_funcs P) rt il (push G) body) = true /\ s1_stmts body = true
+    | None => True
+    end ->
+    genv_ok G ->
+    forall conds e s S,
+      conds_wt (p_funcs P) rt il G conds = true -> conds_s1 conds = true -> inv S G e s ->
+      wp ((fix go (cs : list (expr * list stmt)) (e : env) : M (signal * env) :=
+             match cs with
+             | [] =>
+                 match els with
+                 | Some body =>
+                     let* (sig, e1) := exec_block f P ([] :: e) body in
+                     ret (sig, tl e1)
+                 | None => ret (SigNone, e)
+                 end
+             | (c, body) :: t =>
+                 let* (r, e1) := exec_cond f P e c body in
+                 match r with
+                 | Some sig => ret (sig, e1)
+                 | None => go t e1
+                 end
+             end) conds e s) (kpost S G e).
+  Proof.
+    intros Hels HG. induction conds as [|[c body] conds IHl]; intros e s S Hwt Hs1 Hi.
+    - destruct els as [body|].
+      + destruct Hels as [Hb Hsb].
+        destruct (wt_stmts (p_funcs P) rt il (push G) body) as [Gb|] eqn:Eb; [|discriminate].
+        wbind ltac:(eapply (IHblock P rt il ([] :: e) body (push G) Gb S); eauto using inv_push, genv_ok_push).
+        intros [sig e1] s1 Hp. apply wp_ret.
+        eapply (pop_post S G Gb e (sig, e1) s1 sig) in Hp; eauto using inv_nonempty.
+      + apply wp_ret. kdone S.
+    - cbn [conds_wt] in Hwt. cbn [conds_s1] in Hs1.
+      apply andb_true_iff in Hwt as [Hwt Hwt3]. apply andb_true_iff in Hwt as [Hwt1 Hwt2].
+      apply andb_true_iff in Hs1 as [Hs1 Hs13]. apply andb_true_iff in Hs1 as [Hs11 Hs12].
+      apply opt_ty_eqb_eq in Hwt1.
+      destruct (wt_stmts (p_funcs P) rt il (push G) body) as [Gb|] eqn:Eb; [|discriminate].
+      wbind ltac:(eapply IHcond; eauto). intros [r e1] s1 (S1 & E1 & Hi1 & Hl1). simpl in *.
+      destruct r as [sig|].
+      + apply wp_ret. kdone S1.
+      + eapply wp_mono; [eapply (IHl e1 s1 S1); eauto|]. cbv beta.
+        intros [sig e2] s2 (S2 & E2 & Hi2 & Hl2). kdone S2.
+  Qed.
+
+  Lemma spost_same S0 S G e e' s' sig :
+    ext S0 S -> inv S G e' s' -> List.length e' = List.length e -> spost S0 G G e (sig, e') s'.
+  Proof.
+    intros E [Hh He] Hl. exists S, G. simpl. repeat split; auto; try apply Hh.
+    apply grows_refl. eapply inv_nonempty; split; eauto.
+  Qed.
+
+
+  Lemma num_wp P e1 x G1 S s :
+    ety (p_funcs P) G1 x = Some TNum -> s1_expr x = true -> genv_ok G1 -> inv S G1 e1 s ->
+    wp ((let* l := eval_expr f P e1 x in
+         let* v := load l in
+         match v with HNum y => Sem.ret y | _ => internal "expected number" end) s)
+       (fun _ s' => exists S', ext S S' /\ inv S' G1 e1 s').
+  Proof.
+    intros Ht Hs HG Hi.
+    wbind ltac:(eapply IHe; eauto). intros l s1 (S1 & E1 & Hi1 & Hl1).
+    wbind ltac:(eapply load_wp; eauto; apply Hi1). intros v s2 [-> Hv]. inversion Hv; subst.
+    apply wp_ret. eauto.
+  Qed.
+
+  Lemma opt_num_expr F G o dflt :
+    etyo F G o = true -> s1_opt o = true ->
+    ety F G (match o with Some y => y | None => ENum dflt end) = Some TNum /\
+    s1_expr (match o with Some y => y | None => ENum dflt end) = true.
+  Proof. destruct o; simpl; intros H1 H2; auto. apply opt_ty_eqb_eq in H1; auto. Qed.
+
+  Lemma zero_val_wp S s vt :
+    heap_ok S (st_heap s) -> ty_decl vt = true -> ty_s1 vt = true ->
+    wp (zero_val vt s) (hpost S (st_globals s) (fun S' z => sfind S' z = Some vt)).
+  Proof.
+    intros Hh Hd Hs1.
+    assert (Hok : ty_ok1 vt = true).
+    { unfold ty_decl in Hd. apply andb_true_iff in Hd as [_ Hd]. unfold ty_ok1. rewrite Hs1, Hd. reflexivity. }
+    destruct vt; try discriminate; cbn [zero_val].
+    - eapply wp_mono; [eapply alloc_wp; eauto; constructor|]. cbv beta.
+      intros l s' (S' & E & H1 & H2 & H3). hdone S'.
+    - eapply wp_mono; [eapply alloc_wp; eauto; constructor|]. cbv beta.
+      intros l s' (S' & E & H1 & H2 & H3). hdone S'.
+    - eapply wp_mono; [eapply alloc_wp; eauto; constructor|]. cbv beta.
+      intros l s' (S' & E & H1 & H2 & H3). hdone S'.
+    - wbind ltac:(eapply (alloc_wp S s (HBool false) TBool); eauto; constructor).
+      intros b s1 (S1 & E1 & Hh1 & Hb & Hg1).
+      eapply wp_mono; [eapply (alloc_wp S1 s1 (HAny TBool b) TAny); eauto; constructor; auto|]. cbv beta.
+      intros l s' (S' & E & H1 & H2 & H3). hdone S'.
+    - eapply wp_mono; [eapply (alloc_wp S s (HArr []) (TArr vt)); eauto; constructor; constructor|]. cbv beta.
+      intros l s' (S' & E & H1 & H2 & H3). hdone S'.
+  Qed.
+
+  Lemma bind_loopvar S G e s var vt (m : M loc) :
+    inv S (push G) ([] :: e) s ->
+    (forall v, var = Some v -> binder_ok v = true /\
+       wp (m s) (hpost S (st_globals s) (fun S' z => sfind S' z = Some vt))) ->
+    wp ((match var with
+         | Some v => let* z := m in set_var v z ([] :: e)
+         | None => Sem.ret ([] :: e)
+         end) s)
+       (fun e2 s' => exists S', ext S S' /\
+          inv S' ((true, match var with Some v => [(v, vt)] | None => [] end) :: G) e2 s' /\
+          List.length e2 = Datatypes.S (List.length e)).
+  Proof.
+    intros Hi Hv. destruct var as [v|].
+    - destruct (Hv v eq_refl) as [Hb Hm]. pose proof (binder_not_reserved _ Hb) as (_ & _ & Hus).
+      wbind ltac:(exact Hm). intros z s1 (S1 & E1 & Hh1 & Hg1 & Hz).
+      assert (Hi1 : inv S1 (push G) ([] :: e) s1) by (eapply inv_step; eauto).
+      eapply wp_mono; [eapply set_var_wp; eauto|]. cbv beta.
+      intros e2 s2 (H1 & H2 & f0 & rest & H3 & H4).
+      exists S1; split; auto. split; [|simpl in H2; auto].
+      destruct Hi1 as [_ He1]. rewrite H3 in He1. inversion He1; subst.
+      split; [rewrite H1; auto|]. rewrite H4. constructor; auto.
+      apply frame_ok_decl; auto.
+    - apply wp_ret. exists S; split; auto using ext_refl. split; auto.
+      destruct Hi as [Hh He]. split; auto. unfold full in *; simpl in *. inversion He; subst.
+      constructor; auto.
+  Qed.
+
+  Lemma stmt_step : stmt_sound (S f).
+  Proof.
+    intros P ret il e st G G' S s Hwt Hs1 HG Hi.
+    pose proof (inv_nonempty _ _ _ _ Hi) as HGne.
+    destruct st; cbn [exec_stmt];
+      (apply wp_bind; eapply tick_inv; [exact Hi|]; clear s Hi; intros s Hi); pose proof Hi as [Hh He].
+    - (* SDecl *)
+      cbn [wt_stmt] in Hwt. cbn [s1_stmt] in Hs1. apply andb_true_iff in Hs1 as [Hs1a Hs1b].
+      destruct G as [|[isfor fr] G0]; [discriminate|].
+      match type of Hwt with (if ?c then _ else _) = _ => destruct c eqn:Ec; inversion Hwt; subst end.
+      apply andb_true_iff in Ec as [Ec Ec5]. apply andb_true_iff in Ec as [Ec Ec4].
+      apply andb_true_iff in Ec as [Ec Ec3]. apply andb_true_iff in Ec as [Ec1 Ec2].
+      apply opt_ty_eqb_eq in Ec5. apply negb_true_iff in Ec2.
+      pose proof (binder_not_reserved _ Ec1) as (_ & _ & Hus).
+      wbind ltac:(eapply IHe; eauto). intros v s1 (S1 & E1 & Hi1 & Hv).
+      apply wp_depth_fuel.
+      wbind ltac:(eapply copy_or_ref_wp; eauto using ty_decl_not_none; apply Hi1).
+      intros c s2 (S2 & E2 & Hh2 & Hg2 & Hc).
+      assert (Hi2 : inv S2 ((isfor, fr) :: G0) e s2) by (eapply inv_step; eauto).
+      wbind ltac:(eapply set_var_wp; eauto). intros e' s3 (H1 & H2 & f0 & rest & H3 & H4).
+      apply wp_ret. exists S2, ((isfor, (name, t) :: fr) :: G0). simpl.
+      destruct Hi2 as [_ He2]. rewrite H3 in He2. inversion He2; subst.
+      split; [eauto using ext_trans|]. split; [rewrite H1; auto|]. split.
+      { exists isfor, fr, ((name, t) :: fr), G0. repeat split; auto.
+        constructor; [constructor| | |]; auto.
+        - destruct (sget name fr); [discriminate|auto].
+        - intros ->. simpl in Ec3. auto. }
+      split; [|auto]. rewrite H4. constructor; auto.
+      apply frame_ok_decl; auto. destruct (sget name fr); [discriminate|auto].
+    - (* SAssign *)
+      cbn [wt_stmt] in Hwt. cbn [s1_stmt] in Hs1. apply andb_true_iff in Hs1 as [Hs1a Hs1b].
+      destruct (ety (p_funcs P) G target) as [tg|] eqn:Etg; [|discriminate].
+      destruct (ety (p_funcs P) G e0) as [tv|] eqn:Etv; [|discriminate].
+      match type of Hwt with (if ?c && _ then _ else _) = _ => destruct c eqn:Esh; simpl in Hwt; [|discriminate] end.
+      destruct (ty_eqb tg tv) eqn:Eeq; inversion Hwt; subst. apply ty_eqb_eq in Eeq; subst tv.
+      assert (Hnn : tg <> TNone).
+      { destruct target; try discriminate.
+        - cbn [ety] in Etg.
+          match type of Etg with (if ?c then _ else _) = _ => destruct c eqn:Ec; inversion Etg; subst end.
+          apply andb_true_iff in Ec as [_ Ec]. auto using ty_value_not_none, ty_ann_value.
+        - cbn [ety] in Etg.
+          destruct (ety (p_funcs P) G' target1) as [[]|]; try discriminate;
+          destruct (ety (p_funcs P) G' target2) as [[]|]; try discriminate;
+          match type of Etg with (if ?c then _ else _) = _ => destruct c eqn:Ec; inversion Etg; subst end;
+          apply andb_true_iff in Ec as [_ Ec]; auto using ty_value_not_none, ty_ann_value. }
+      wbind ltac:(eapply IHe; eauto). intros v0 s1 (S1 & E1 & Hi1 & Hv0).
+      apply wp_depth_fuel.
+      wbind ltac:(eapply copy_or_ref_wp; eauto; apply Hi1). intros v s2 (S2 & E2 & Hh2 & Hg2 & Hv).
+      assert (Hi2 : inv S2 G' e s2) by (eapply inv_step; eauto).
+      destruct target; try discriminate.
+      + (* variable *)
+        cbn [ety] in Etg.
+        match type of Etg with (if ?c then _ else _) = _ => destruct c eqn:Ec; inversion Etg; subst end.
+        apply andb_true_iff in Ec as [Ec Ec3]. apply andb_true_iff in Ec as [Ec1 Ec2].
+        apply negb_true_iff in Ec1. apply opt_ty_eqb_eq in Ec2.
+        destruct Hi2 as [_ He2].
+        destruct (env_get_sound _ _ _ _ _ He2 Ec2) as (l0 & Hl0 & _).
+        destruct (env_update_some name v (full e s2)) as (fe' & Hfe'); [congruence|].
+        wbind ltac:(eapply update_var_wp; eauto). intros e' s3 (H1 & H2 & H3).
+        apply wp_ret. eapply (spost_same S S2); eauto using ext_trans.
+        split; [rewrite H1; auto|]. rewrite H3. eapply env_update_ok; eauto.
+      + (* array element *)
+        cbn [ety] in Etg. cbn [s1_expr] in Hs1a.
+        apply andb_true_iff in Hs1a as [Hs1a Hs1a3]. apply andb_true_iff in Hs1a as [Hs1a1 Hs1a2].
+        destruct (ety (p_funcs P) G' target1) as [ta|] eqn:Ea; [|discriminate].
+        destruct (ety (p_funcs P) G' target2) as [ti|] eqn:Ei; [|destruct ta; discriminate].
+        wbind ltac:(eapply (IHe P e target1 G' ta S2); eauto). intros la s3 (S3 & E3 & Hi3 & Hla).
+        wbind ltac:(eapply (IHe P e target2 G' ti S3); eauto). intros li s4 (S4 & E4 & Hi4 & Hli).
+        pose proof Hi4 as [Hh4 He4].
+        wbind ltac:(eapply load_wp; [exact Hh4|]; eauto). intros va s5 [-> Hva].
+        destruct ta; try discriminate.
+        * (* array *)
+          destruct ti; try discriminate.
+          match type of Etg with (if ?c then _ else _) = _ => destruct c eqn:Ec; inversion Etg; subst end.
+          apply andb_true_iff in Ec as [Ec1 Ec2]. apply ty_eqb_eq in Ec1; subst ta.
+          inversion Hva; subst.
+          wbind ltac:(eapply load_num_wp; eauto). intros fi s5 ->.
+          apply wp_bind. apply lift_norm_wp. intros k Hk.
+          wbind ltac:(eapply (store_wp S4 s4 la (HArr (list_set els k v)) (TArr tg)); eauto).
+          { constructor. apply list_set_Forall; auto. }
+          intros _ s5 [Hh5 Hg5]. apply wp_ret.
+          eapply (spost_same S S4); eauto using ext_trans.
+          split; auto. unfold full in *. rewrite Hg5. auto.
+        * (* map: not a Stage-1 type *)
+          pose proof (ho_tys _ _ Hh4 _ _ (E4 _ _ Hla)) as Hbad. discriminate.
+    - (* SCallStmt *)
+      cbn [wt_stmt] in Hwt. rewrite s1_stmt_SCallStmt in Hs1. apply andb_true_iff in Hs1 as [Hs1a Hs1b].
+      unfold call_ty in Hwt.
+      destruct (lookup_sig (p_funcs P) name) as [sg|] eqn:Esg; [|discriminate].
+      destruct (etys (p_funcs P) G args) as [ts|] eqn:Ets; [|discriminate].
+      destruct (sig_args_ok sg ts) eqn:Eok; [|discriminate]. inversion Hwt; subst.
+      wbind ltac:(eapply IHc; eauto). intros r s1 (S1 & l & -> & E1 & Hi1 & Hl1).
+      apply wp_ret. eapply (spost_same S S1); eauto.
+    - (* SReturn *) discriminate.
+    - (* SBreak *)
+      cbn [wt_stmt] in Hwt. destruct il; inversion Hwt; subst.
+      apply wp_ret. eapply (spost_same S S); eauto using ext_refl.
+    - (* SIf *)
+      rewrite wt_stmt_SIf in Hwt. rewrite s1_stmt_SIf in Hs1. apply andb_true_iff in Hs1 as [Hs1a Hs1b].
+      match type of Hwt with (if ?c && ?d then _ else _) = _ => destruct c eqn:Ec; destruct d eqn:Ed; inversion Hwt; subst end.
+      eapply wp_mono; [eapply (if_go_wp P ret il els G'); eauto|].
+      { destruct els; auto. }
+      cbv beta. intros [sig e1] s1 K. eapply spost_of_kpost; eauto.
+    - (* SWhile *)
+      rewrite wt_stmt_SWhile in Hwt. rewrite s1_stmt_SWhile in Hs1. apply andb_true_iff in Hs1 as [Hs1a Hs1b].
+      match type of Hwt with (if ?c && _ then _ else _) = _ => destruct c eqn:Ec; simpl in Hwt; [|discriminate] end.
+      destruct (wt_stmts (p_funcs P) ret true (push G) body) as [Gb|] eqn:Eb; inversion Hwt; subst.
+      apply opt_ty_eqb_eq in Ec.
+      eapply wp_mono; [eapply IHwhile; eauto|].
+      cbv beta. intros [sig e1] s1 K. eapply spost_of_kpost; eauto.
+    - (* SFor *)
+      rewrite wt_stmt_SFor in Hwt. cbv zeta in Hwt. rewrite s1_stmt_SFor in Hs1.
+      apply andb_true_iff in Hs1 as [Hs1 Hs1b]. apply andb_true_iff in Hs1 as [Hs1v Hs1r].
+      set (vname := match var with Some v => v | None => underscore end).
+      set (named := match var with Some _ => Some vt | None => None end).
+      set (fr0 := match var with Some v => [(v, vt)] | None => [] end).
+      match type of Hwt with match ?rng with _ => _ end = _ => destruct rng as [t|] eqn:Erng; [|discriminate] end.
+      assert (HS : (forall v, var = Some v -> binder_ok v = true /\ vt = t /\ ty_decl vt = true /\ ty_s1 vt = true) /\
+                   (exists Gb, wt_stmts (p_funcs P) ret true ((true, fr0) :: G) body = Some Gb) /\ G' = G).
+      { destruct var as [v|].
+        - match type of Hwt with match (if ?c then _ else _) with _ => _ end = _ => destruct c eqn:Ec; [|discriminate] end.
+          apply andb_true_iff in Ec as [Ec Ec3]. apply andb_true_iff in Ec as [Ec1 Ec2]. apply ty_eqb_eq in Ec2.
+          destruct (wt_stmts (p_funcs P) ret true ((true, [(v, vt)]) :: G) body) as [Gb|] eqn:Eb; inversion Hwt; subst.
+          split; [|eauto]. intros v0 Hv0; inversion Hv0; subst; auto.
+        - destruct (wt_stmts (p_funcs P) ret true ((true, []) :: G) body) as [Gb|] eqn:Eb; inversion Hwt; subst.
+          split; [|eauto]. discriminate. }
+      destruct HS as (Hvar & (Gb & Hbody) & ->). clear Hwt.
+      assert (HG2 : genv_ok ((true, fr0) :: G)).
+      { unfold fr0. destruct var as [v|]; [|exact HG]. destruct (Hvar v eq_refl) as (Hb & _). apply genv_ok_frame; auto. }
+      assert (Hff : for_frame named vname fr0).
+      { unfold named, vname, fr0. destruct var as [v|]; simpl; auto. destruct (Hvar v eq_refl); auto. }
+      pose proof (inv_push _ _ _ _ Hi) as Hip.
+      apply wp_bind.
+      eapply (wp_mono _ (fun p s' => exists S', ext S S' /\ inv S' ((true, fr0) :: G) (snd p) s' /\
+                            rg_ok S' named (fst p) /\ List.length (snd p) = Datatypes.S (List.length e))).
+      { destruct r as [start stop step|y].
+        - (* step range *)
+          apply andb_true_iff in Hs1r as [Hs1r Hs1r3]. apply andb_true_iff in Hs1r as [Hs1r1 Hs1r2].
+          match type of Erng with (if ?c then _ else _) = _ => destruct c eqn:Ec; inversion Erng; subst end.
+          apply andb_true_iff in Ec as [Ec Ec3]. apply andb_true_iff in Ec as [Ec1 Ec2]. apply opt_ty_eqb_eq in Ec2.
+          destruct (opt_num_expr _ _ _ 0%float Ec1 Hs1r1) as [Ta Sa].
+          destruct (opt_num_expr _ _ _ 1%float Ec3 Hs1r3) as [Tc Sc].
+          wbind ltac:(eapply num_wp; eauto using genv_ok_push). intros a s1 (S1 & E1 & Hi1).
+          wbind ltac:(eapply (num_wp P ([] :: e) stop (push G) S1); eauto using genv_ok_push). intros b s2 (S2 & E2 & Hi2).
+          wbind ltac:(eapply (num_wp P ([] :: e) _ (push G) S2); eauto using genv_ok_push). intros c s3 (S3 & E3 & Hi3).
+          destruct (PrimFloat.eqb c 0); [exact I|].
+          wbind ltac:(eapply (bind_loopvar S3 G e s3 var vt); eauto).
+          { intros v Hv. destruct (Hvar v Hv) as (Hb & -> & _). split; auto.
+            eapply wp_mono; [eapply alloc_wp; [apply Hi3|constructor|reflexivity]|]. cbv beta.
+            intros l s' (S' & E & H1 & H2 & H3). hdone S'. }
+          intros e2 s4 (S4 & E4 & Hi4 & Hl4). apply wp_ret. exists S4. simpl.
+          split; [eauto using ext_trans|]. split; [exact Hi4|]. split; auto.
+          unfold named. destruct var as [v|]; auto. destruct (Hvar v eq_refl) as (_ & -> & _); auto.
+        - (* range over a value *)
+          destruct (ety (p_funcs P) (push G) y) as [ty'|] eqn:Ey; [|discriminate].
+          wbind ltac:(eapply IHe; eauto using genv_ok_push). intros l s1 (S1 & E1 & Hi1 & Hl1).
+          pose proof Hi1 as [Hh1 He1].
+          wbind ltac:(eapply load_wp; eauto). intros v s2 [-> Hv].
+          pose proof (ho_tys _ _ Hh1 _ _ Hl1) as Hok.
+          destruct ty'; simpl in Erng; try discriminate; inversion Erng; subst; inversion Hv; subst.
+          + (* string *)
+            wbind ltac:(eapply (bind_loopvar S1 G e s1 var vt); eauto).
+            { intros v Hv0. destruct (Hvar v Hv0) as (Hb & -> & _). split; auto.
+              eapply wp_mono; [eapply alloc_wp; [apply Hi1|constructor|reflexivity]|]. cbv beta.
+              intros l0 s' (S' & E & H1 & H2 & H3). hdone S'. }
+            intros e2 s4 (S4 & E4 & Hi4 & Hl4). apply wp_ret. exists S4. simpl.
+            split; [eauto using ext_trans|]. split; [exact Hi4|]. split; auto.
+            unfold named. destruct var as [v|]; auto. destruct (Hvar v eq_refl) as (_ & -> & _); auto.
+          + (* array *)
+            wbind ltac:(eapply (bind_loopvar S1 G e s1 var vt); eauto).
+            { intros v Hv0. destruct (Hvar v Hv0) as (Hb & -> & Hd & Hs). split; auto.
+              eapply zero_val_wp; eauto. }
+            intros e2 s4 (S4 & E4 & Hi4 & Hl4). apply wp_ret. exists S4. simpl.
+            split; [eauto using ext_trans|]. split; [exact Hi4|]. split; auto.
+            left. exists t. split; [auto|].
+            unfold named. destruct var as [v|]; auto. destruct (Hvar v eq_refl) as (_ & -> & _); auto.
+          + (* the untyped [] *)
+            wbind ltac:(eapply (bind_loopvar S1 G e s1 var vt); eauto).
+            { intros v Hv0. destruct (Hvar v Hv0) as (Hb & -> & Hd & Hs). split; auto.
+              eapply zero_val_wp; eauto. }
+            intros e2 s4 (S4 & E4 & Hi4 & Hl4). apply wp_ret. exists S4. simpl.
+            split; [eauto using ext_trans|]. split; [exact Hi4|]. split; auto. }
+      cbv beta. intros [rg e2] s1 (S1 & E1 & Hi1 & Hrg & Hl1). simpl in *.
+      wbind ltac:(eapply (IHfor P ret e2 vname rg body G fr0 named Gb S1); eauto).
+      intros [sig e3] s2 (S2 & E2 & [Hh2 He2] & Hl2). simpl in *. apply wp_ret.
+      apply env_ok_pop in He2 as [He2 Hne]; auto.
+      eapply (spost_same S S2); eauto using ext_trans.
+      + split; auto.
+      + destruct e3; [congruence|]. simpl in *. lia.
+    - (* SNop *)
+      inversion Hwt; subst. apply wp_ret. eapply (spost_same S S); eauto using ext_refl.
+  Qed.
+End StmtStep.
